@@ -66,12 +66,18 @@ impl<'a, 'b> RefCtx<'a, 'b> {
     fn unit_ref(&self, off: u64) -> J {
         let o = self
             .unit
-            .map(|u| gimli::UnitOffset(off as usize).to_unit_section_offset(&u).0);
+            .map(|u| gimli::UnitOffset(off as usize).to_unit_section_offset(&u).0 + sec_bias(&u));
         self.lookup(o)
     }
     fn info_ref(&self, off: u64) -> J {
         self.lookup(Some(off as usize))
     }
+}
+
+/// identities of entries in `.debug_types` units are kept apart from `.debug_info` ones
+const TYPES_BIAS: usize = 1 << 44;
+fn sec_bias(u: &gimli::Unit<Rd<'_>>) -> usize {
+    if u.header.section() == SectionId::DebugTypes { TYPES_BIAS } else { 0 }
 }
 
 fn ops_meaning(bytes: &[u8], enc: Encoding, endian: RunTimeEndian, cx: &RefCtx) -> J {
@@ -685,6 +691,15 @@ fn dwarf_dump(dwarf: &gimli::Dwarf<Rd<'static>>, endian: RunTimeEndian) -> Resul
             Err(e) => return Err(format!("units:{}", err_name(&e))),
         }
     }
+    // DWARF 4 type units (.debug_types) are units of the forest as well
+    let mut tit = dwarf.type_units();
+    loop {
+        match tit.next() {
+            Ok(Some(h)) => units.push(dwarf.unit(h).map_err(|e| format!("type unit:{}", err_name(&e)))?),
+            Ok(None) => break,
+            Err(e) => return Err(format!("type units:{}", err_name(&e))),
+        }
+    }
     let mut orders: Vec<Vec<gimli::DebuggingInformationEntry<Rd<'static>>>> = Vec::new();
     for (ui, unit) in units.iter().enumerate() {
         let mut raw = unit.entries_raw(None).map_err(|e| format!("entries:{}", err_name(&e)))?;
@@ -721,7 +736,7 @@ fn dwarf_dump(dwarf: &gimli::Dwarf<Rd<'static>>, endian: RunTimeEndian) -> Resul
             }
         }
         for (idx, e) in canon.iter().enumerate() {
-            ids.insert(e.offset().to_unit_section_offset(unit).0, (ui, idx));
+            ids.insert(e.offset().to_unit_section_offset(unit).0 + sec_bias(unit), (ui, idx));
         }
         orders.push(canon);
     }
@@ -919,6 +934,10 @@ fn run_dwarf(base: &str, api: &str, secs: Secs, endian: RunTimeEndian, seed: u64
         ev["mout"] = y;
         ev["mout2"] = z;
         evs.push(ev);
+        if a.is_none() || b.is_none() {
+            // a whole unit is missing on one side: the ConvUnit event says so; its parts are not listed
+            continue;
+        }
         let ne = [a, b, c3].iter().map(|u| u.map(|u| u.entries.len()).unwrap_or(0)).max().unwrap_or(0);
         for ei in 0..ne {
             let common = [a, b].iter().map(|u| u.map(|u| u.entries.len()).unwrap_or(0)).min().unwrap_or(0);
@@ -1513,6 +1532,8 @@ fn read_file(p: &str) -> Option<Vec<u8>> {
 fn base_dir(base: &str) -> Option<String> {
     if base == "self" {
         Some("/repo/fixtures/self".to_string())
+    } else if let Some(d) = base.strip_prefix("dir:") {
+        Some(d.to_string())
     } else {
         base.strip_prefix("corpus:").map(|v| format!("/verif/corpus/{}", v))
     }
